@@ -287,11 +287,14 @@ pub struct XlsbSheet {
     /// zip entry name of the part below `xl/`, also written as the relationship `Target` (`None` =
     /// `<kind dir>/sheet<n>.bin`)
     pub part: Option<String>,
+    /// `Some(seed)`: the rows are written in a permuted order (each row keeps its BrtRowHdr and its cells in
+    /// column order) — [MS-XLSB] wants ascending rows, but `Range::from_sparse` accepts any order
+    pub row_order: Option<u64>,
 }
 
 impl XlsbSheet {
     pub fn new(name: &str) -> XlsbSheet {
-        XlsbSheet { name: name.into(), state: 0, kind: SheetKind::Work, cells: BTreeMap::new(), dims: None, noise: None, raw: None, no_rel: false, part: None }
+        XlsbSheet { name: name.into(), state: 0, kind: SheetKind::Work, cells: BTreeMap::new(), dims: None, noise: None, raw: None, no_rel: false, part: None, row_order: None }
     }
     pub fn set(&mut self, row: u32, col: u32, val: BVal) -> &mut BCell {
         self.cells.insert((row, col), BCell::new(val));
@@ -355,15 +358,19 @@ impl XlsbSheet {
         let mut fr = Framer::new(framing, salt);
         let mut o = self.prologue(&mut fr);
         let mut noise = self.noise.map(Rng::new);
-        let mut cur: Option<u32> = None;
-        for (&(r, c), cell) in &self.cells {
-            if cur != Some(r) {
-                noise_records(&mut o, &mut noise, &mut fr);
-                fr.rec(&mut o, 0x0000, &row_hdr(r));
-                cur = Some(r);
-            }
+        // rows in ascending order, or permuted (`row_order`)
+        let mut rows: Vec<u32> = self.cells.keys().map(|k| k.0).collect();
+        rows.dedup();
+        if let Some(seed) = self.row_order {
+            Rng::new(seed).shuffle(&mut rows);
+        }
+        for r in rows {
             noise_records(&mut o, &mut noise, &mut fr);
-            fr.rec(&mut o, cell.record_id(), &cell.payload(c));
+            fr.rec(&mut o, 0x0000, &row_hdr(r));
+            for (&(_, c), cell) in self.cells.range((r, 0)..=(r, u32::MAX)) {
+                noise_records(&mut o, &mut noise, &mut fr);
+                fr.rec(&mut o, cell.record_id(), &cell.payload(c));
+            }
         }
         noise_records(&mut o, &mut noise, &mut fr);
         o.extend_from_slice(&self.epilogue(&mut fr));
